@@ -243,9 +243,40 @@ func runTransitionOpts(cfg *config, opts map[string]pkgOpts, ops []op, res *engi
 		return nil
 	}
 	judge(cfg, res, &last, slots, obs, pi.obs, pre, post, nil, opErr)
+	exportFlagsAgree(cfg, res, &last, pre, post)
 	count(cfg, res, &last, gPre)
 	res.Outcome = digest(obs, opErr)
 	return &transition{pre: pre, post: post}
+}
+
+// exportFlagsAgree (state invariant G): being exported is ONE bit per (package, name) in the use/export graph. slip
+// keeps it per table entry (the variable and the function of a name each carry a flag, an unbound variable entry
+// remembers an export made before the definition). Two entries of one name that belong to the same package and
+// disagree about it are a state no graph describes - whatever is defined under that name next inherits one flag or
+// the other. Judged only when the entries agreed before the step (S3).
+func exportFlagsAgree(cfg *config, res *engine.Result, last *op, pre, post *dump) {
+	split := func(d *dump, x int, n string) bool {
+		v, hasV := d.p[x].vars[n]
+		f, hasF := d.p[x].funcs[n]
+		return hasV && hasF && v.home == x && f.home == x && v.exp != f.exp
+	}
+	for x := range post.p {
+		for _, n := range cfg.names() {
+			if split(post, x, n) && !split(pre, x, n) {
+				rel := "other"
+				if last.actor == x {
+					rel = "actor"
+				}
+				same := "other-name"
+				if last.argPk < 0 && last.arg == n {
+					same = "same-name"
+				}
+				res.Fail(fmt.Sprintf("op=%s check=G kind=export-flag-of-variable-and-function-entries-disagree in=%s name=%s", last.kind, rel, same),
+					fmt.Sprintf("after %s: package %s holds its own variable entry (exported=%v) and function entry (exported=%v) for %s; before the step they agreed\npre:  %s\npost: %s",
+						histOp(last), cfg.pk[x], post.p[x].vars[n].exp, post.p[x].funcs[n].exp, n, pre.key(), post.key()))
+			}
+		}
+	}
 }
 
 func (o op) String() string {
